@@ -53,25 +53,38 @@ def check_series_dispatch(ctx):
     repo = ctx.repo
     f = repo.fn(CONVERTER, 'series_to_str')
     names = _dtype_names(f)
+    view = view_of(f)
+
+    def ret_text(o):
+        """what a return delivers: its expression with locals expanded, plus every definition reaching a returned name"""
+        st = o[2]
+        if not isinstance(st, ast.Return) or st.value is None:
+            return o[1]
+        parts = [U(untag(view.expand(st.value, st)))]
+        if isinstance(st.value, ast.Name):
+            for d in view.reaching(st.value.id, st):
+                if d.value is not None and d.node is not None:
+                    parts.append(U(untag(view.expand(d.value, d.node))))
+        return ' | '.join(sorted(set(parts)))
     for kind in ('object', 'str', 'int', 'float'):
         outs = dt_outcomes(f.node, kind, names)
         # argument-check raises (AssertionError) are not dtype outcomes
         outs = [o for o in outs if not (o[0] == 'raise' and o[1] == 'AssertionError')]
         bad = [o for o in outs if o[0] in ('raise', 'pred-raises')]
-        rets = sorted(set(o[1] for o in outs if o[0] == 'return'))
+        rets = sorted(set(ret_text(o) for o in outs if o[0] == 'return'))
         ok = not bad
         msg = ''
         if bad:
             msg = 'a %s column ends in %s `%s`' % (kind, 'an exception raised by the dtype test' if bad[0][0] == 'pred-raises' else 'raise', bad[0][1][:60])
         elif kind in ('object', 'str'):
-            conv = [r for r in rets if 'col_str' in r or 'astype(str)' in r or '.apply(' in r]
+            conv = [r for r in rets if 'astype(str)' in r or '.apply(' in r]
             ok = not conv
             msg = 'a %s (string) column is converted (`%s`) instead of being returned unchanged' % (kind, conv[:1])
         elif kind == 'int':
-            ok = any('col_str' in r or 'astype(str)' in r for r in rets)
+            ok = any('astype(str)' in r for r in rets)
             msg = 'an int column never reaches the astype(str) conversion: returns %s' % rets
         else:
-            ok = any('col_str' in r for r in rets)
+            ok = any('.apply(' in r and 'isnull' in r for r in rets)
             msg = 'a float column never reaches the NaN-preserving conversion: returns %s' % rets
         ctx.check('R-DTYPE/dispatch', f, kind, ok, 'series_to_str: ' + msg, (bad or [(0, 0, f.node)])[0][2],
                   sample='%s -> %s' % (kind, rets))
@@ -305,7 +318,7 @@ def _check_integral(ctx, f, view, conds, node):
     want = None
     from ..guards import literals
     for _, e, pol in literals(c):
-        if isinstance(e, ast.Compare) and 'int_values' in U(e):
+        if isinstance(e, ast.Compare) and 'is_integer' in U(untag(view.expand(e, st))):
             want = (e, pol)
     okc = want is not None and want[1] and isinstance(want[0].ops[0], ast.Eq)
     ctx.check('R-CONV/integral-only', f, 'str(int(v))', okc,
